@@ -39,3 +39,6 @@ Fixpoint den (p : bdd) (a : asg) : bool :=
 Lemma den_neg p a : den (neg p) a = negb (den p a).
 Proof. destruct p as [| |[] v l h]; simpl; try reflexivity; destruct (if a v then _ else _); reflexivity. Qed.
 
+
+(* functional update of an assignment *)
+Definition upd (a : asg) (v : var) (b : bool) : asg := fun u => if N.eqb u v then b else a u.
